@@ -315,6 +315,21 @@ def run(ctx: Ctx) -> Result:
             want = ref_i2b(int(xv))
             if top is None or top in ('-', 'e') or bytes.fromhex(top) != want:
                 viol(f'FLOAT_TO_INT on {xv!r}', {'script': script.hex()}, 'stack top ' + want.hex() + f' (= {int(xv)}, the fraction dropped)', f['status'] + ' ' + str(top)[:40])
+    # the most negative value of a width (-2^(8W-1): top byte 80, W bytes) as an exact RESULT under an item limit of W bytes - two's
+    # complement is asymmetric: it fits although its magnitude has one bit more than any positive value that fits
+    for lim in (1, 2, 4, 8, 33, 1024):
+        cfgm = vmrun.Cfg(max_item_size=lim); mn = -(1 << (8 * lim - 1)); h = 1 << (8 * lim - 2)
+        for what_, script in (('ADD_INTS', G.push(ref_i2b(-h)) * 2 + bytes([N['ADD_INTS'], 2])),
+                              ('ADD_INTS of three', G.push(ref_i2b(-h)) + G.push(ref_i2b(-h + 5)) + G.push(ref_i2b(-5)) + bytes([N['ADD_INTS'], 3])),
+                              ('SUBTRACT_INTS', G.push(ref_i2b(h)) + G.push(ref_i2b(-h)) + bytes([N['SUBTRACT_INTS'], 2])),
+                              ('MULT_INTS', G.push(ref_i2b(-2)) + G.push(ref_i2b(h)) + bytes([N['MULT_INTS'], 2])),
+                              ('DIV_INTS', G.push(ref_i2b(1)) + G.push(ref_i2b(mn)) + bytes([N['DIV_INTS']]))):
+            o = vmrun.run_impl(cfgm, {}, script)
+            run_lines.append(vmrun.case_line('RUN', cfgm, {}, [script])); run_outs.append(o)
+            res.note_case(('most-negative-result', what_, lim)); nops += 1
+            f = vmrun.fields(o); top = f.get('stack', '-').split(',')[0] if f['status'] == 'OK' else None
+            if top is None or top in ('-', 'e') or bytes.fromhex(top) != ref_i2b(mn):
+                viol(what_ + f' with the exact result -2^{8 * lim - 1} under an item limit of {lim} byte(s)', {'script': script.hex()[:400], 'cfg': cfgm.line()}, 'stack top ' + ref_i2b(mn).hex()[:40], f['status'] + ' ' + str(top)[:40])
     # instructions that *produce* integers from lengths / counts use the same signed encoding (SIZE, DEPTH)
     for n in sorted({0, 1, 2, 126, 127, 128, 129, 200, 254, 255, 256, 257, 511, 512, 1000, 1023, 1024} | {irng.randrange(0, 1025) for _ in range(ctx.n(20, 200))}):
         script = G.push(bytes([7]) * n) + bytes([N['SIZE']]) if n else bytes([N['PUSH1'], 0, N['SIZE']])
